@@ -91,6 +91,8 @@ MODELS = {
     # name: (module, quick cfg, thorough cfg, parsers, quick vector limit)
     "framing": ("MC_Framing.tla", "MC_Framing_quick.cfg", "MC_Framing_thorough.cfg", ["A"], 9000),
     "cache": ("MC_Cache.tla", "MC_Cache_quick.cfg", "MC_Cache_thorough.cfg", ["A", "B"], 6000),
+    # random walks of 8 calls over single and two-packet buffers (TLC -simulate): deeper histories than the exhaustive bound
+    "cachesim": ("MC_Cache.tla", "MC_Cache_sim.cfg", "MC_Cache_sim.cfg", ["A", "B"], -1),
     "liveness": ("MC_Framing.tla", "MC_Liveness.cfg", "MC_Liveness.cfg", ["A"], 0),   # Terminates under weak fairness; no vectors
     "decode": ("MC_Decode.tla", "MC_Decode_quick.cfg", "MC_Decode_thorough.cfg", ["A"], 4000),
 }
@@ -101,14 +103,18 @@ def model_run(name, tier, seed):
     module, qcfg, tcfg, parsers, limit = MODELS[name]
     cfg = qcfg if tier == "quick" else tcfg
     th = vf.tree_hash()
-    cdir = os.path.join(vf.OUT, "cache", th, "model-%s-%s" % (name, tier))
+    cdir = os.path.join(vf.OUT, "cache", th, "model-%s-%s%s" % (name, tier, "-%d" % seed if name == "cachesim" else ""))
     done = os.path.join(cdir, "model.json")
     if os.path.exists(done):
         with open(done) as f:
             return json.load(f)
     shutil.rmtree(cdir, ignore_errors=True)
     os.makedirs(cdir)
-    r = vf.tlc_model(module, cfg, cdir, workers=min(12, vf.NCPU), timeout=900 if tier == "quick" else 7200)
+    if name == "cachesim":
+        r = vf.tlc_model(module, cfg, cdir, workers=1, timeout=3600,
+                         extra_args=["-simulate", "num=%d" % (60 if tier == "quick" else 1500), "-depth", "130", "-seed", str(seed)])
+    else:
+        r = vf.tlc_model(module, cfg, cdir, workers=min(12, vf.NCPU), timeout=900 if tier == "quick" else 7200)
     log("model %s (%s): ok=%s states=%d transitions=%d vectors=%d %.1fs" % (name, cfg, r["ok"], r["states"], r["transitions"], r["nvec"], r["wall_s"]))
     if not r["ok"]:
         with open(os.path.join(cdir, "tlc.out")) as f:
@@ -122,7 +128,7 @@ def model_run(name, tier, seed):
 def vector_ops(name, tier, seed):
     module, qcfg, tcfg, parsers, limit = MODELS[name]
     m = model_run(name, tier, seed)
-    vecs = vf.read_vectors(m["vectors_file"], limit if tier == "quick" else 120000, seed)
+    vecs = vf.read_vectors(m["vectors_file"], limit if (tier == "quick" or limit == -1) else 120000, seed)
     ops = []
     for v in vecs:
         ops += gen.ops_reset(parsers)
@@ -376,8 +382,11 @@ def check(prop, tier, seed, t0):
         return check_c17(tier, seed, t0)
     if prop not in PROP_DRIVERS:
         raise vf.ToolError("no pipeline for " + prop)
-    models = [model_run(m, tier, seed) for m in PROP_MODELS.get(prop, [])]
-    runs = [driver_run("vec:" + m, tier, seed) for m in PROP_MODELS.get(prop, []) if m != "liveness"]
+    mnames = list(PROP_MODELS.get(prop, []))
+    if (tier == "thorough" and prop in ("C06", "C07", "C11", "C12", "C14")) or prop == "C06":
+        mnames.append("cachesim")
+    models = [model_run(m, tier, seed) for m in mnames]
+    runs = [driver_run("vec:" + m, tier, seed) for m in mnames if m != "liveness"]
     runs += [driver_run(d, tier, seed) for d in PROP_DRIVERS[prop]]
     if prop == "C01" and tier == "thorough":
         # stack depth and frame sizes differ between profiles: exercise the optimised build too
